@@ -357,6 +357,9 @@ def hook(interp, name, args, kwargs, node):
                 return [conv(x) for x in v]
             return v
         return NArr(conv(list(a0)))
+    if name in ("numpy.ones", "numpy.zeros") and len(args) >= 1 and \
+            isinstance(a0, (int, Fraction)):
+        return NArr([1 if name == "numpy.ones" else 0] * int(a0))
     if name == "numpy.max" and isinstance(a0, NArr) and len(args) == 1:
         return max(_flat(a0.data))
     if name == "numpy.min" and isinstance(a0, NArr) and len(args) == 1:
